@@ -22,6 +22,10 @@ pub struct Case {
     /// start of the clock: seconds since 0001-01-01T00:00:00
     pub start: i64,
     pub steps: Vec<Step>,
+    /// a second, different schedule that is polled under the same clock directly before every call
+    /// (schedules are independent of each other)
+    #[serde(default)]
+    pub other: Option<String>,
 }
 
 pub fn gen_start(u: &mut Unstructured) -> arbitrary::Result<i64> {
@@ -150,7 +154,22 @@ fn gen_case(u: &mut Unstructured<'_>, min_steps: usize, max_steps: usize) -> arb
             };
             steps.push(Step { advance, clone: u.ratio(1, 10)? });
         }
-        Ok(Case { expr, start, steps })
+        let other = match u.int_in_range(0..=5u8)? {
+            0 => Some(gen_schedule(u)?),
+            1 | 2 => {
+                // the same schedule with one field drawn again
+                let mut f: Vec<String> = expr.split_whitespace().map(|x| x.to_string()).collect();
+                if f.len() == 5 {
+                    let k = *u.choose(&[0usize, 1, 2, 2, 3, 4, 4])?;
+                    f[k] = c16::gen_field(u, [FieldKind::Minute, FieldKind::Hour, FieldKind::Dom, FieldKind::Month, FieldKind::Dow][k], true)?;
+                    Some(f.join(" "))
+                } else {
+                    None
+                }
+            }
+            _ => None,
+        };
+        Ok(Case { expr, start, steps, other })
     }
 }
 
@@ -194,6 +213,19 @@ fn run_history(c: &Case, cx: &mut Cx) -> Verdict {
     if sets.dom[29] && sets.months[2] && sets.dom_restricted() && !sets.dow_restricted() && !(1..=28).any(|d| sets.dom[d]) {
         cx.nt("only_days_29+");
     }
+    // a second schedule polled under the same clock directly before every call; it is held to the
+    // same reference (and dropped as soon as it has no match within nine years: what next() does on
+    // a schedule that never matches again is not stated)
+    let mut other: Option<(CronSchedule, cron::Sets, Option<i64>)> = match &c.other {
+        Some(e) if e.len() <= 300 && *e != c.expr => match (cron::parse(e), catch(|| CronSchedule::parse(e))) {
+            (Parsed::Accept(so), Ok(Ok(o))) if so.satisfiable() => {
+                cx.nt("another_schedule_polled_in_between");
+                Some((o, so, None))
+            }
+            _ => None,
+        },
+        _ => None,
+    };
     let mut clock = c.start;
     let mut last: Option<i64> = None; // minutes
     let mut clone: Option<CronSchedule> = None;
@@ -242,8 +274,23 @@ fn run_history(c: &Case, cx: &mut Cx) -> Verdict {
             cx.nt("carry_across_month_or_year");
         }
         let now_dt = dt_of_secs(clock);
+        let mut want_other: Option<i64> = None;
+        if let Some((_, so, lo)) = &other {
+            let base_o = match lo {
+                Some(l) if *l > now_min => *l,
+                _ => now_min,
+            };
+            want_other = so.next_after(base_o, 3300).filter(|w| w * 60 < hi + 4_000 * 86_400);
+            if want_other.is_none() {
+                other = None;
+            }
+        }
+        let mut got_other: Option<Option<i128>> = None;
         let r = catch(|| {
             astrolabe::verif::set_now(Some(now_dt));
+            if let Some((o, _, _)) = other.as_mut() {
+                got_other = Some(o.next().map(|d| rd_dt(&d)));
+            }
             let a = sched.next();
             let b = clone.as_mut().map(|cl| cl.next());
             (a.map(|d| (rd_dt(&d), d.second(), d.nano())), b.map(|o| o.map(|d| rd_dt(&d))))
@@ -272,6 +319,19 @@ fn run_history(c: &Case, cx: &mut Cx) -> Verdict {
                 }
             }
         }
+        if let (Some(w), Some(g)) = (want_other, got_other) {
+            let wi_o = w as i128 * 60 * 1_000_000_000;
+            if g != Some(wi_o) {
+                return fail(
+                    "c17.interleaved_schedule",
+                    format!("call #{} of the second schedule {:?} (polled alternately with {:?}) at clock {} -> {}", i + 1, c.other, c.expr, fmt_instant(clock as i128 * 1_000_000_000), fmt_instant(wi_o)),
+                    format!("{:?}", g.map(fmt_instant)),
+                );
+            }
+            if let Some((_, _, lo)) = other.as_mut() {
+                *lo = Some(w);
+            }
+        }
         if let Some(gc) = got_clone {
             if gc != Some(wi) {
                 return fail("c17.clone_diverges", format!("the clone continues identically ({})", what), format!("{:?}", gc.map(fmt_instant)));
@@ -289,7 +349,7 @@ pub fn run(env: &mut Env) {
     let mut cases = Vec::new();
     for e in fixed {
         for start in [cal::days_from_ymd(2024, 2, 28) * 86_400 + 86_399, cal::days_from_ymd(2023, 12, 31) * 86_400 + 86_340, cal::days_from_ymd(2100, 2, 28) * 86_400] {
-            cases.push(Case { expr: e.to_string(), start, steps: (0..40).map(|k| Step { advance: if k % 7 == 3 { -2 } else { 0 }, clone: k == 5 }).collect() });
+            cases.push(Case { expr: e.to_string(), start, steps: (0..40).map(|k| Step { advance: if k % 7 == 3 { -2 } else { 0 }, clone: k == 5 }).collect(), other: None });
         }
     }
     env.run_list::<History>(cases);
